@@ -196,8 +196,11 @@ func textFor(r *rand.Rand, s *Schema, kind, ref string, valid bool) string {
 		}
 		return common.Pick(r, []string{"yes", "no", "tRUE", "2", "", "truee", "TrUe"})
 	case "int32", "sint32", "sfixed32", "int64", "sint64", "sfixed64", "uint32", "fixed32", "uint64", "fixed64":
-		if valid && r.Intn(2) == 0 {
-			return strconv.Itoa(r.Intn(2000) - 300)
+		if valid {
+			if strings.HasPrefix(kind, "u") || strings.HasPrefix(kind, "fixed") {
+				return common.Pick(r, []string{"0", "1", "7", "42", "00012", "2147483647", "4294967295", strconv.Itoa(r.Intn(2000))})
+			}
+			return common.Pick(r, []string{"0", "1", "-1", "+5", "-0", "2147483647", "-2147483648", strconv.Itoa(r.Intn(2000) - 300)})
 		}
 		return common.Pick(r, intTexts)
 	case "float", "double":
@@ -255,8 +258,14 @@ func textFor(r *rand.Rand, s *Schema, kind, ref string, valid bool) string {
 				return common.Pick(r, []string{"1s", "1.5s", "0", "-2h3m", "100ms", "1ns", "2562047h", "0.000000001s", "+3s"})
 			}
 			return common.Pick(r, []string{"1", "bad", "", "1 s", "3d", "99999999h"})
-		case "Int64Value", "Int32Value", "UInt64Value", "UInt32Value":
+		case "Int64Value":
 			return textFor(r, s, "int64", "-", valid)
+		case "Int32Value":
+			return textFor(r, s, "int32", "-", valid)
+		case "UInt64Value":
+			return textFor(r, s, "uint64", "-", valid)
+		case "UInt32Value":
+			return textFor(r, s, "uint32", "-", valid)
 		case "BoolValue":
 			return textFor(r, s, "bool", "-", valid)
 		case "StringValue":
@@ -390,10 +399,10 @@ func fillRandom(r *rand.Rand, msg protoreflect.Message, depth int) {
 // genBody produces JSON for the body bound at bodyPath (marshalled by the real JSON marshaler from a
 // random value), or a malformed / edge-case body.
 func genBody(r *rand.Rand, b *Built, root, bodyPath string) []byte {
-	switch r.Intn(12) {
-	case 0:
+	switch r.Intn(24) {
+	case 0, 1:
 		return nil
-	case 1:
+	case 2:
 		return []byte(common.Pick(r, []string{"{", "nul", "[1,", "\"abc", "{}x", "tru", " ", "{\"nope\":1}", "null", "{}", "[]", "0", "\"\""}))
 	}
 	defer func() { _ = recover() }()
@@ -432,6 +441,10 @@ func pathKey(r *rand.Rand, l leaf, jsonMix bool) string {
 	return strings.Join(parts, ".")
 }
 
+func parseableElem(l leaf) bool {
+	return l.f.Kind != "message" || isWKT(l.f.Ref) && l.f.Ref != "google.protobuf.Empty"
+}
+
 func isScalarLeaf(l leaf) bool {
 	return l.f.Card == "s" && (l.f.Kind != "message" || isWKT(l.f.Ref) && l.f.Ref != "google.protobuf.Empty")
 }
@@ -444,9 +457,9 @@ func genCase(r *rand.Rand, s *Schema, b *Built, op string) *tcCase {
 		switch {
 		case isScalarLeaf(l):
 			scal = append(scal, l)
-		case l.f.Card == "l":
+		case l.f.Card == "l" && (parseableElem(l) || r.Intn(10) == 0):
 			lists = append(lists, l)
-		case strings.HasPrefix(l.f.Card, "m:"):
+		case strings.HasPrefix(l.f.Card, "m:") && (parseableElem(l) || r.Intn(10) == 0):
 			maps = append(maps, l)
 		}
 	}
@@ -458,14 +471,14 @@ func genCase(r *rand.Rand, s *Schema, b *Built, op string) *tcCase {
 		return anyLeaf()
 	}
 	// body path
-	switch x := r.Intn(20); {
-	case x < 6:
+	switch x := r.Intn(40); {
+	case x < 12:
 		c.BodyPath = ""
-	case x < 10:
+	case x < 20:
 		c.BodyPath = "*"
-	case x < 16:
+	case x < 36:
 		c.BodyPath = pathKey(r, anyLeaf(), false)
-	case x < 18:
+	case x < 38:
 		c.BodyPath = pathKey(r, anyLeaf(), true) // JSON names are not allowed in body paths
 	default:
 		l := anyLeaf()
@@ -501,7 +514,7 @@ func genCase(r *rand.Rand, s *Schema, b *Built, op string) *tcCase {
 			continue
 		}
 		seenK[k] = true
-		v := textFor(r, s, l.f.Kind, l.f.Ref, r.Intn(8) != 0)
+		v := textFor(r, s, l.f.Kind, l.f.Ref, r.Intn(20) != 0)
 		c.PP = append(c.PP, kv{k, []string{v}})
 	}
 	// query
@@ -518,7 +531,7 @@ func genCase(r *rand.Rand, s *Schema, b *Built, op string) *tcCase {
 		switch x := r.Intn(20); {
 		case x < 9: // scalar-ish leaf, mostly valid
 			l := goodLeaf()
-			vs := []string{textFor(r, s, l.f.Kind, l.f.Ref, r.Intn(8) != 0)}
+			vs := []string{textFor(r, s, l.f.Kind, l.f.Ref, r.Intn(20) != 0)}
 			if r.Intn(15) == 0 {
 				vs = append(vs, textFor(r, s, l.f.Kind, l.f.Ref, true))
 			}
@@ -527,13 +540,13 @@ func genCase(r *rand.Rand, s *Schema, b *Built, op string) *tcCase {
 			l := lists[r.Intn(len(lists))]
 			var vs []string
 			for n := 1 + r.Intn(3); n > 0; n-- {
-				vs = append(vs, textFor(r, s, l.f.Kind, l.f.Ref, r.Intn(10) != 0))
+				vs = append(vs, textFor(r, s, l.f.Kind, l.f.Ref, r.Intn(25) != 0))
 			}
 			addQ(pathKey(r, l, r.Intn(2) == 0), vs...)
 		case x < 15 && len(maps) > 0: // map: key[sub]=v
 			l := maps[r.Intn(len(maps))]
-			kk := textFor(r, s, l.f.Card[2:], "-", r.Intn(10) != 0)
-			vv := textFor(r, s, l.f.Kind, l.f.Ref, r.Intn(10) != 0)
+			kk := textFor(r, s, l.f.Card[2:], "-", r.Intn(25) != 0)
+			vv := textFor(r, s, l.f.Kind, l.f.Ref, r.Intn(25) != 0)
 			k := pathKey(r, l, r.Intn(2) == 0)
 			switch r.Intn(10) {
 			case 0:
@@ -558,7 +571,11 @@ func genCase(r *rand.Rand, s *Schema, b *Built, op string) *tcCase {
 			addQ(common.Pick(r, []string{"nope", "sub.nope", "a[b", "a]b[", "[x]", "x[]", "sub[k][j]", "", ".", "sub.", "sub..x", "nope[k]"}), "1")
 		default: // any field at all (messages, lists of messages, ...)
 			l := anyLeaf()
-			addQ(pathKey(r, l, r.Intn(2) == 0), textFor(r, s, l.f.Kind, l.f.Ref, true))
+			k := pathKey(r, l, r.Intn(2) == 0)
+			if strings.HasPrefix(l.f.Card, "m:") && r.Intn(4) != 0 {
+				k += "[" + textFor(r, s, l.f.Card[2:], "-", true) + "]"
+			}
+			addQ(k, textFor(r, s, l.f.Kind, l.f.Ref, true))
 		}
 	}
 	return c
